@@ -95,6 +95,7 @@ def c10(tier):
     beh = export_server_behaviours(chk, "MCServerExport_c10.cfg", "c10", 20000 if thorough else 1500)
     run_family(chk, "server", "prod", ["--seed", s, "--n", 0, "--behaviours", beh], [ST], "tlc-behaviours")
     run_family(chk, "server", "prod", ["--seed", s, "--n", 8000 if thorough else 1200, "--mode", "streams"], [ST], "streams")
+    run_family(chk, "server", "prod", ["--seed", s + 4, "--n", 4000 if thorough else 600, "--mode", "hotstream"], [ST], "hotstream")
     run_family(chk, "server", "prod", ["--seed", s + 2, "--n", 6000 if thorough else 900, "--mode", "faulty"], [ST],
                "streams-faulty")
     chk.nontrivial = chk.traces_ok
